@@ -923,7 +923,13 @@ package xmpp
 // buffered reaches the connection after the closing tag).
 //@ func (*lockWriteCloser).Close
 //@   ghost viaFlush bool = false
+// the final flush happens while the output lock is still held: what the writer
+// buffered goes out before any other sender can get the lock
+//@   ghost released bool = false
+//@   callsite (sync.Locker).Unlock#1
+//@     after: released = true
 //@   callsite (*lockWriteCloser).Flush#1
+//@     assert[C05,C10] !released
 //@     after: viaFlush = true
 //@   ensures[C10] old(lwc.err) == nil ==> viaFlush
 // a closed token writer stays closed: it has given up the output lock, so every
